@@ -391,7 +391,7 @@ var (
 	reUint    = regexp.MustCompile(`^[0-9]+$`)
 	reAddr    = regexp.MustCompile(`^0x[0-9a-fA-F]{40}$`)
 	reAddrLax = regexp.MustCompile(`^(0x|0X)?[0-9a-fA-F]{40}$`)
-	reHexSeq  = regexp.MustCompile(`^0x([0-9a-fA-F]{2})*$`)
+	reHexSeq  = regexp.MustCompile(`^0[xX]([0-9a-fA-F]{2})*$`)
 )
 
 // certainlyMalformed is an independent, deliberately conservative predicate:
@@ -461,4 +461,53 @@ func certainlyMalformed(ev abcitypes.Event) bool {
 		}
 	}
 	return false
+}
+
+func FuzzC14_MakeEvent(f *testing.F) {
+	types := []string{evtype.CheckIn, evtype.BatchConfig, evtype.BatchConfigStarted, evtype.EonStarted, evtype.PolyCommitment, evtype.PolyEval, evtype.Accusation, evtype.Apology, "shutter.unknown"}
+	enc := func(ev abcitypes.Event) []byte {
+		var b []byte
+		for _, a := range ev.Attributes {
+			b = append(b, a.Key...)
+			b = append(b, 0)
+			b = append(b, a.Value...)
+			b = append(b, 0)
+		}
+		return b
+	}
+	seeds := []shutterevents.IEvent{
+		&shutterevents.CheckIn{Sender: uni.Addrs[0], EncryptionPublicKey: mustECIES(uni.EncKeys[0])},
+		&shutterevents.BatchConfig{Keypers: uni.Addrs[:2], Threshold: 1, KeyperConfigIndex: 3},
+		&shutterevents.EonStarted{Eon: 1},
+		&shutterevents.PolyEval{Sender: uni.Addrs[1], Receivers: uni.Addrs[:1], EncryptedEvals: [][]byte{{1, 2}}},
+		&shutterevents.Apology{Sender: uni.Addrs[1], Accusers: uni.Addrs[:1], PolyEval: []*big.Int{big.NewInt(5)}},
+	}
+	for _, s := range seeds {
+		ev := s.MakeABCIEvent()
+		for i, tn := range types {
+			if tn == ev.Type {
+				f.Add(uint8(i), enc(ev))
+			}
+		}
+	}
+	f.Fuzz(func(t *testing.T, ti uint8, raw []byte) {
+		ev := abcitypes.Event{Type: types[int(ti)%len(types)]}
+		parts := strings.Split(string(raw), "\x00")
+		for i := 0; i+1 < len(parts); i += 2 {
+			ev.Attributes = append(ev.Attributes, abcitypes.EventAttribute{Key: parts[i], Value: parts[i+1]})
+		}
+		got, err, p := safeMakeEvent(ev, 3)
+		if p != nil {
+			t.Fatalf("VERIF-FAIL signature=decode-panic :: MakeEvent panicked: %v on %s", p, evDesc(ev))
+		}
+		if err == nil && certainlyMalformed(ev) {
+			t.Fatalf("VERIF-FAIL signature=malformed-accepted :: malformed event decoded to %v: %s", got, evDesc(ev))
+		}
+		if err == nil {
+			got2, err2, p2 := safeMakeEvent(got.MakeABCIEvent(), 3)
+			if p2 != nil || err2 != nil || cmp.Diff(got, got2, evCmp...) != "" {
+				t.Fatalf("VERIF-FAIL signature=decode-unstable :: unstable decode for %s", evDesc(ev))
+			}
+		}
+	})
 }
